@@ -566,6 +566,29 @@ class Machine:
         self.cache = {}
         return ["user_change:" + op["what"]]
 
+    def op_clone_self(self, op):
+        """From now on the history goes on with a clone of the shared object (stdlib copy / deepcopy, pickle,
+        its own copy()): a clone is the same initial orbit, so nothing may change."""
+        import copy
+        import pickle
+
+        how = op["how"]
+        if how == "copy":
+            new = copy.copy(self.obj)
+        elif how == "deepcopy":
+            new = copy.deepcopy(self.obj)
+        elif how == "pickle":
+            new = pickle.loads(pickle.dumps(self.obj))
+        else:
+            if not hasattr(self.obj, "copy"):
+                return ["skip"]
+            new = self.obj.copy()
+        if snapshot(new) != self.snap:
+            raise Violation("clone-differs", f"the {how} clone of the initial object differs from it")
+        self.obj = new
+        self.listeners = None
+        return ["clone:" + how]
+
     def op_partial(self, op):
         start, stop, step = self._range(op)
         kw = self.iter_kwargs(op, start, stop, step)
@@ -616,7 +639,8 @@ class Machine:
 @st.composite
 def op_strategy(draw, kind, h_us, span_us):
     name = draw(st.sampled_from(["propagate", "iter_range", "iter_range", "iter_range", "iter_dates", "iter_daterange",
-                                 "ephem", "iter_listeners", "rebind", "rebind_other", "partial", "iter_own", "kick", "user_change"]))
+                                 "ephem", "iter_listeners", "rebind", "rebind_other", "partial", "iter_own", "kick", "user_change",
+                                 "clone_self"]))
 
     def t():
         # one in four on the grid of the integration / tabulation step (ephemeris nodes, integration points)
@@ -625,6 +649,8 @@ def op_strategy(draw, kind, h_us, span_us):
             return k * h_us
         return draw(go.uniform_int(-span_us, span_us)) if kind != "ephem" else draw(go.uniform_int(0, span_us))
 
+    if name == "clone_self":
+        return dict(op=name, how=draw(st.sampled_from(["copy", "deepcopy", "pickle", "own"])))
     if name == "user_change":
         what = draw(st.sampled_from(["form", "form", "frame"]))
         value = draw(st.sampled_from(["keplerian", "keplerian_mean", "spherical", "equinoctial", "cartesian"])) if what == "form" \
@@ -729,7 +755,7 @@ def check(case):
     m = Machine(case)
     tags = m.run()
     kinds = {t for t in tags if t in ("propagate", "iter_range", "iter_dates", "iter_daterange", "ephem", "iter_listeners", "iter_own",
-                                       "rebind", "rebind_other", "partial_consume", "kick:A", "kick:B", "kick:C", "user_change:form", "user_change:frame", "propagate-again", "restart-from-event-state")}
+                                       "rebind", "rebind_other", "partial_consume", "kick:A", "kick:B", "kick:C", "user_change:form", "user_change:frame", "propagate-again", "restart-from-event-state", "clone:copy", "clone:deepcopy", "clone:pickle", "clone:own")}
     # an op that failed as a listed known finding and after which the history went on also counts:
     # what follows it runs on objects that have been through a failing call
     special = {"backward", "step-not-dividing", "shorter-than-interp-order", "stop-off-grid", "known-finding-op"} & set(tags)
